@@ -119,11 +119,12 @@ PROPS['C07'] = {
                                  'defect:conditional-and-unconditional', 'defect:argument-index>5', 'defect:unimplemented-operation',
                                  'valid-policy', 'valid-with-empty-group', 'unknown-name:later-group', 'unknown-name-conditional:later-group',
                                  'unimplemented-operation:last-in-list', 'unimplemented-operation:middle-of-list', 'unimplemented-operation:first-in-list',
-                                 'argument-index>5:later-group', 'operation-spelled-in-other-case', 'arch-lookup']},
+                                 'argument-index>5:later-group', 'operation-spelled-in-other-case', 'arch-lookup', 'size-boundary', 'size-accepted:4096', 'size-accepted:4095']},
     'units': [
         {'test': 'TestC07Validation', 'checks': {'quick': 48000, 'thorough': 600000}, 'shards': {'quick': 16, 'thorough': 16},
          'timeout': {'quick': 300, 'thorough': 3000}},
         {'test': 'TestC07Arch', 'timeout': {'quick': 120, 'thorough': 120}},
+        {'test': 'TestC07SizeBoundary', 'checks': {'quick': 400, 'thorough': 8000}, 'shards': {'quick': 8, 'thorough': 16}, 'timeout': {'quick': 300, 'thorough': 1500}},
     ],
 }
 
@@ -185,13 +186,14 @@ PROPS['C13'] = {
              'known bits, or it is a cross-process round; distinct by hash of the case JSON'),
     'assumptions': ['schedules are sampled (barrier start, 2..16 goroutines), not enumerated', 'the Go race detector reports the races that occur in the sampled schedules',
                     '"caller\'s policy" = exported fields and slice headers; the unexported arch cache may be filled in'],
-    'required_classes': {'all': ['same-name-entries-merged', 'interleaved-with-other-policies', 'shared-slices', 'concurrent', 'text', 'processes']},
+    'required_classes': {'all': ['same-name-entries-merged', 'interleaved-with-other-policies', 'shared-slices', 'concurrent', 'text', 'processes', 'text-forms-across-processes', 'modified-between-compilations:default', 'modified-between-compilations:group-action']},
     'units': [
         {'test': 'TestC13History', 'checks': {'quick': 8000, 'thorough': 90000}, 'shards': {'quick': 8, 'thorough': 16}, 'timeout': {'quick': 300, 'thorough': 3000}},
         {'test': 'TestC13Concurrent', 'race': True, 'checks': {'quick': 1200, 'thorough': 20000}, 'shards': {'quick': 6, 'thorough': 8},
          'env': {'GORACE': 'halt_on_error=1'}, 'timeout': {'quick': 400, 'thorough': 3000}},
         {'test': 'TestC13Text', 'checks': {'quick': 2000, 'thorough': 50000}, 'timeout': {'quick': 120, 'thorough': 600}},
         {'test': 'TestC13Processes', 'helpers': ['digest'], 'timeout': {'quick': 300, 'thorough': 1200}},
+        {'test': 'TestC13TextProcesses', 'helpers': ['digest'], 'timeout': {'quick': 300, 'thorough': 1200}},
     ],
 }
 MANIFEST_TEXT['C13'] = {'claim': 'repeated/interleaved compilations give identical programs and leave the policy (exported fields and slice headers) untouched; concurrent compilations of deep and slice-sharing copies under the race detector; text forms stable; digests of a seeded corpus identical across fresh processes',
@@ -257,10 +259,11 @@ PROPS['C19'] = {
              'a target is non-trivial iff it is not linux/amd64; a transplant policy iff it contains an errno action or is for x86_64; distinct by hash of the case JSON'),
     'assumptions': ['non-Linux and non-x86 code is compiled for its target but executed only on the host (source transplant); a miscompilation by another back end is out of reach',
                     'MIPS errno value (ENOSYS=89) is a literature value: the image only ships x86 and asm-generic headers'],
-    'required_classes': {'all': ['target', 'non-linux-target', 'linux-mips-errno-table', 'goarch-without-tables', 'goarch-with-tables', 'transplant', 'transplant-under-strace']},
+    'required_classes': {'all': ['target', 'non-linux-target', 'linux-mips-errno-table', 'goarch-without-tables', 'goarch-with-tables', 'transplant', 'transplant-under-strace', 'no-system-call-between-markers', 'same-programs-from-386-and-amd64-builds']},
     'units': [
         {'test': 'TestC19CrossBuild', 'timeout': {'quick': 900, 'thorough': 900}},
         {'test': 'TestC19Transplant', 'timeout': {'quick': 600, 'thorough': 900}},
+        {'test': 'TestC19ArchDigest', 'helpers': ['digest', {'name': 'digest', 'goarch': '386'}], 'timeout': {'quick': 300, 'thorough': 900}},
     ],
 }
 MANIFEST_TEXT['C19'] = {'claim': 'compile-time constant assertions built under every GOOS/GOARCH pair of the toolchain (complete enumeration); unsupported-architecture behaviour for every GOARCH without tables; non-Linux stub sources transplanted to the host and executed against generated policies',
@@ -367,7 +370,7 @@ PROPS['C15'] = {
     'required_classes': {'all': ['invalid:' + d for d in ('missing-file', 'empty-file', 'yaml-syntax', 'wrong-type', 'unknown-syscall', 'unknown-syscall-conditional', 'unknown-action',
                                                           'unknown-default-action', 'unknown-operation', 'no-seccomp-key', 'empty-syscalls', 'argument-index-6', 'oversize-program',
                                                           'unprivileged-without-nnp', 'binary-garbage', 'entry-without-arguments', 'entry-with-empty-arguments')] +
-                         ['valid', 'target-sees-denied-and-allowed-probes', 'target-killed-at-the-expected-probe', 'uid:65534', 'nnp:false']},
+                         ['valid', 'target-sees-denied-and-allowed-probes', 'target-killed-at-the-expected-probe', 'uid:65534', 'nnp:false', 'valid-policy-that-denies-execve']},
     'units': [
         {'test': 'TestC15Sandbox', 'checks': {'quick': 800, 'thorough': 16000}, 'shards': {'quick': 16, 'thorough': 16}, 'helpers': _SANDBOX,
          'timeout': {'quick': 500, 'thorough': 3300}},
@@ -411,7 +414,7 @@ PROPS['C17'] = {
              'exactly the profile of a cold-cache run (fresh HOME) for the current binary; a history is non-trivial iff it contains a crash or a tool failure; distinct by hash of the case JSON'),
     'assumptions': ['crash = SIGKILL of the profiler\'s process group after its cache file stopped growing; power-failure reorderings of file system writes are not modelled',
                     'the profiler is built with CGO_ENABLED=0 and run as a uid without passwd entry so that $HOME selects a private cache directory'],
-    'required_classes': {'all': ['crash-before-first-flush', 'crash-between-flushes', 'tool-exit-nonzero-after-partial-output', 'tool-missing', 'tool-killed-by-signal', 'binary-changed', 'final-run-correct-profile',
+    'required_classes': {'all': ['crash-before-first-flush', 'crash-between-flushes', 'tool-exit-nonzero-after-partial-output', 'tool-missing', 'tool-killed-by-signal', 'overlapping-runs', 'cache-write-fails-beyond-size-limit', 'binary-changed', 'final-run-correct-profile',
                                  'binary:amd64', 'binary:386']},
     'units': [
         {'test': 'TestC17Cache', 'checks': {'quick': 480, 'thorough': 8000}, 'shards': {'quick': 16, 'thorough': 16}, 'helpers': _PROFILER,
@@ -432,7 +435,7 @@ PROPS['C18'] = {
     'assumptions': ['the discovered set is known exactly because the listing only contains canonical sites of the site model',
                     'an empty allow-list profile need not load through the configuration path (no claim)'],
     'required_classes': {'all': ['format:config', 'format:code', 'format:default', 'binary:amd64', 'binary:386', 'empty-result', 'names>255', 'closure-checked',
-                                 'blacklist-removes-and-allow-adds', 'duplicate-sites']},
+                                 'blacklist-removes-and-allow-adds', 'duplicate-sites', 'out-file-rewritten']},
     'units': [
         {'test': 'TestC18Profiles', 'checks': {'quick': 480, 'thorough': 6000}, 'shards': {'quick': 16, 'thorough': 16}, 'helpers': _PROFILER,
          'timeout': {'quick': 500, 'thorough': 3300}},
